@@ -88,6 +88,7 @@ type scenario struct {
 	NameClass  string   `json:"name_class"`
 	OutClass   string   `json:"out_class"` // default | dir | missing | file | symlink_dir | relative
 	OutPath    string   `json:"out_path"`  // resolved absolute parent directory (where it exists)
+	OutAbs     string   `json:"out_abs"`   // where the -out value points, resolved (whether or not it exists)
 	Pre        string   `json:"pre_state"` // state of <out>/<name>
 	Help       bool     `json:"help"`
 	Version    bool     `json:"version"`
@@ -125,6 +126,8 @@ func nameVerdict(n string) string {
 	return gen.NameGrey
 }
 
+var oddOutValues = []string{"~", "~nobody", "~/gen", "$HOME", "${PWD}", "%s", "%d%n", "a b", "*", "?", "nul", "con", "-", "--", "-out", "é", "x\ty", "a\\b", "C:\\gen", "file:///outdir", "...", "rel/out/../../nope", strings.Repeat("d/", 300) + "e", strings.Repeat("n", 300)}
+
 const (
 	sentinel = "SENTINEL pre-existing content - must survive\n"
 )
@@ -144,20 +147,29 @@ func genScenario(t *simrt.Tape) scenario {
 	s.NameFlag, s.NameClass = gen.GenName(t)
 	s.FileState = []string{"present", "present", "present", "present", "present", "missing", "directory"}[t.Draw(7)]
 	s.FileArg = []string{"/work/in/spec.grammar", "in/spec.grammar", "./in/../in/spec.grammar"}[t.Draw(3)]
-	s.OutClass = []string{"default", "dir", "dir", "dir", "missing", "file", "symlink_dir", "relative"}[t.Draw(8)]
+	s.OutClass = []string{"default", "dir", "dir", "dir", "missing", "file", "symlink_dir", "relative", "odd_missing", "cwd_alias"}[t.Draw(10)]
+	outArg := ""
 	switch s.OutClass {
 	case "default":
-		s.OutPath = "/work"
+		s.OutPath, s.OutAbs = "/work", "/work"
 	case "dir":
-		s.OutPath = "/outdir"
+		s.OutPath, s.OutAbs = "/outdir", "/outdir"
 	case "missing":
-		s.OutPath = ""
+		s.OutPath, s.OutAbs = "", "/does/not/exist"
 	case "file":
-		s.OutPath = ""
+		s.OutPath, s.OutAbs = "", "/afile"
 	case "symlink_dir":
-		s.OutPath = "/outdir"
+		s.OutPath, s.OutAbs = "/outdir", "/outdir"
 	case "relative":
-		s.OutPath = "/work/rel/out"
+		s.OutPath, s.OutAbs = "/work/rel/out", "/work/rel/out"
+	case "odd_missing":
+		// values a shell, a printf or a path library might treat specially; for emerge they are plain
+		// relative paths that do not exist
+		outArg = oddOutValues[t.Draw(len(oddOutValues))]
+		s.OutPath, s.OutAbs = "", path.Join("/work", outArg)
+	case "cwd_alias":
+		outArg = []string{"", ".", "./", "./.", "in/..", "/work/", "/work/in/../"}[t.Draw(7)]
+		s.OutPath, s.OutAbs = "/work", "/work"
 	}
 	s.Pre = []string{"none", "none", "none", "none", "empty_dir", "dir_with_targets", "file", "symlink_dir", "symlink_file", "dangling_symlink"}[t.Draw(10)]
 	// flags, in a drawn order, always before the file argument (documented usage)
@@ -173,6 +185,12 @@ func genScenario(t *simrt.Tape) scenario {
 		fl = append(fl, "-out", "/lnk_outdir")
 	case "relative":
 		fl = append(fl, "-out", "rel/out")
+	case "odd_missing", "cwd_alias":
+		if t.Chance(1, 2) || strings.HasPrefix(outArg, "-") {
+			fl = append(fl, "-out="+outArg)
+		} else {
+			fl = append(fl, "-out", outArg)
+		}
 	}
 	if s.NameClass != gen.NameFromGrammar {
 		if t.Chance(1, 2) {
@@ -544,10 +562,10 @@ func (e Engine) judge(s scenario, rr runResult, pid int, tmpls []tmplInfo, acc, 
 		if accKnown && (!acc || s.FileState != "present") {
 			return &verdict{"success_on_rejected_input", fmt.Sprintf("exit 0 and success announced although the specification (%s, file %s) is not accepted", s.InputClass, s.FileState)}
 		}
-		if s.OutPath == "" {
-			return &verdict{"success_without_output_dir", "exit 0 although the output location is not an existing directory"}
-		}
-		target := path.Join(s.OutPath, name)
+		// (an output location that did not exist and was created by the run is not forbidden by the
+		// statement; one that exists as something else than a directory cannot be written into
+		// without modifying it - clause 1 - so the package directory cannot be there afterwards)
+		target := path.Join(s.OutAbs, name)
 		ent, ok := rr.after[target]
 		if !ok || ent.Kind != "dir" {
 			return &verdict{"success_without_package_dir", fmt.Sprintf("exit 0 but %s is not a directory afterwards (-out/-name not honoured?)", target)}
